@@ -78,6 +78,13 @@ def gen_graph(
     n = rng.randint(n_lo, n_hi)
     names = list(names) if names is not None else gen_names(rng, n, common=rng.random() < 0.2)
     names = names[:n] if len(names) >= n else names + gen_names(rng, n - len(names))
+    if len(names) >= 2 and rng.random() < 0.08:
+        # a variable next to its value-marked namesake as two distinct nodes (Variable("A") and Variable("A", star=True)):
+        # legal, unusual, and exactly what ordering / keying code tends to forget
+        i, j = rng.sample(range(len(names)), 2)
+        marked = rng.choice("+-") + names[j].lstrip("+-")
+        if marked not in names:
+            names[i] = marked
     pd = rng.choice(pd_choices)
     pb = rng.choice(pb_choices)
     order = list(names)
@@ -132,6 +139,8 @@ def gen_history(rng: random.Random, g: dict[str, Any]) -> dict[str, Any]:
     """Draw one construction history that denotes the abstract graph g."""
     ctor = rng.choice(CTORS)
     nodes, D, B = g["nodes"], g["D"], g["B"]
+    if any(x[:1] in "+-" for x in nodes) and ctor in ("from_str_edges", "from_str_adj"):
+        ctor = rng.choice(("from_edges", "from_adj", "incremental"))  # plain strings cannot name a value-marked node
     covered = {x for e in D for x in e} | {x for e in B for x in e}
     needed = [x for x in nodes if x not in covered]
     h: dict[str, Any] = {"ctor": ctor, "copy": rng.random() < 0.2}
@@ -204,7 +213,7 @@ def canonical_history(g: dict[str, Any]) -> dict[str, Any]:
 
 
 def V(name: str) -> Variable:
-    return Variable(name)
+    return mkvar(name)  # "+A" / "-A" denote the value-marked variable, "A@(...)" a counterfactual one
 
 
 def apply_steps(graph: NxMixedGraph, steps: list[list]) -> None:
